@@ -409,9 +409,6 @@ def c04_jobs(tier):
             if typ in (6, 12) and n > 2:
                 continue
             jobs.append(J("sml", "ZZ_C04_leaf", typ=typ, n=n, wide=0, **T))
-    if tier != "quick":
-        for typ in (4, 7, 10, 13):
-            jobs.append(J("sml", "ZZ_C04_leaf", typ=typ, n=1, wide=1, query_ms=120000, **T))
     for w in (4, 8):
         jobs.append(J("sml", "ZZ_C04_float", w=w, **T))
     for which in range(7):
@@ -638,8 +635,8 @@ _b("C03",
    ["message text longer than the bound without structure", "more than one simultaneous corruption in the structured family", "input slices with spare capacity (C07 sparecap covers the capacity clause)"])
 _b("C04",
    "names k<=2 arbitrary bytes; ASCII items k<=2 characters (all 128 values); 1- and 2-byte numeric formats full range with n<=2 elements, 4/8-byte formats boundary menu; float menu (15 F4 / 12 F8 values incl. -0 and the float32 that double-rounds through float64) squared; 5 variable/ellipsis templates with ASCII bounds 0..12; 7 fixed accepted texts (print -> parse fixed point)",
-   "k<=4; n<=3; 4/8-byte formats full range with 1 element; symbolic constants in the templates",
-   ["float values outside the menu (strconv's shortest-digit printing and parsing run concretely, they are not encoded)", "messages whose single ellipsis carries a non-canonical name", "names the lexer reads as another token (excluded by the property)"])
+   "k<=4; n<=3; symbolic constants in the templates (full-range 32/64-bit decimal round trips were tried and dropped: z3 answers unknown on the digit arithmetic)",
+   ["4- and 8-byte integer values outside the boundary menu", "float values outside the menu (strconv's shortest-digit printing and parsing run concretely, they are not encoded)", "messages whose single ellipsis carries a non-canonical name", "names the lexer reads as another token (excluded by the property)"])
 _b("C05",
    "integer literals of 10 item types x sign: decimal k<=3 symbolic digits, hex 2, octal 3, binary 8, and literals straddling the limit of every width (limit/base with 1 symbolic trailing digit) in all four bases; one arbitrary byte directly behind a literal of 8 classes; two literals per item; wrong-kind literals; strings k<=3 bytes, mixed strings/codes; booleans; float menu in F4/F8 and mixed; radix digits outside the radix",
    "decimal k<=5, hex 8, octal 6, binary 16 symbolic digits; straddling literals with 1-2 symbolic trailing digits; strings k<=5",
